@@ -34,6 +34,9 @@ def params(draw, tier):
     p["ignore_four"] = draw(st.booleans())
     # brick and square lattices have exactly straight-through junctions, which the default limit (pi) flags by design (C16)
     p["angle_limit"] = "inf" if p["kind"] in ("brick", "square") else draw(st.sampled_from(["default", "inf"]))
+    # the Frame is constructed while the vertices still sit elsewhere (shifted, interior points on the chords) and the
+    # coordinates get their final values in place afterwards, as TimeSeries(cm=True) or a rescaling caller do
+    p["late_coords"] = draw(st.sampled_from([False, False, False, True]))
     return p
 
 
@@ -79,8 +82,24 @@ def check_case(p, ctx):
     R = realise(t, nint, gen.lab_of(p))
     if gen.snap_chord_exact(t, R, p.get("pose")):
         ctx.count("first-segment-exactly-axis-parallel")
+    saved = None
+    if p.get("late_coords"):
+        saved = {vid: (v.x, v.y) for vid, v in R.vertices.items()}
+        ext = t.extent()
+        for vid, v in R.vertices.items():
+            tok = R.tok_of_vid[vid]
+            if tok[0] == "I":
+                r = t.ridges[tok[1]]
+                z = t.J[r.a] + (t.J[r.b] - t.J[r.a]) * (tok[2] + 1) / (R.n_int[tok[1]] + 1)
+                v.x, v.y = float(z.real), float(z.imag)
+            v.x += 3.0 * ext
+            v.y -= 2.0 * ext
+        ctx.count("coordinates-finalised-after-frame-construction")
     frame = make_frame(R)
     fsys = call(fs.ForSys, {0: frame})
+    if saved:
+        for vid, (x, y) in saved.items():
+            R.vertices[vid].x, R.vertices[vid].y = x, y
     kw = dict(when=0, metadata={"ignore_four": p["ignore_four"]}, circle_fit_method=p["fit"])
     if p["angle_limit"] == "inf":
         kw["angle_limit"] = np.inf
